@@ -215,6 +215,15 @@ pub fn gen(r: &mut Rng, thorough: bool) -> Vec<(String, String)> {
             v.push(("aabb_toi".into(), format!("{} {}", bx, tail(&oc, &d, m, solid))));
             v.push(("aabb_normal".into(), format!("{} {}", bx, tail(&oc, &d, m, solid))));
             v.push(("clip_aabb_line".into(), format!("{} {} {}", bx, d3::hp(&oc), d3::hv(&d))));
+            // the line form also clips boxes lying entirely behind the origin (reversed direction) and no longer panics on a
+            // zero direction (side code 0 leaves the normal at zero): both exercised on every run
+            v.push(("clip_aabb_line".into(), format!("{} {} {}", bx, d3::hp(&oc), d3::hv(&(-d)))));
+            if it % 20 == 9 {
+                let z = V3::new(0.0, -0.0, 0.0);
+                v.push(("clip_aabb_line".into(), format!("{} {} {}", bx, d3::hp(&oc), d3::hv(&z))));
+                v.push(("aabb_normal".into(), format!("{} {}", bx, tail(&oc, &z, m, solid))));
+                v.push(("aabb_toi".into(), format!("{} {}", bx, tail(&oc, &z, m, solid))));
+            }
         }
         // ---------------- half-space
         {
